@@ -178,6 +178,131 @@ def gen_merged_checks(rng, n, chk=None):
     return out
 
 
+SIZE_POINTS = [8, 16, 31, 32, 33, 64, 128]
+
+
+def size_bucket(n):
+    for lo, hi in ((0, 7), (8, 15), (16, 30), (31, 31), (32, 32), (33, 33), (34, 63), (64, 127), (128, 10 ** 6)):
+        if lo <= n <= hi: return f'{lo}-{hi}' if lo != hi else str(lo)
+
+
+def filler_line(rng, k):
+    """a line of some grammar class that matches none of the entries of a large tree"""
+    return rng.choice([f'*.scratch{k}', f'fill{k}', f'fdir{k}/', f'/anch{k}', f'fa{k}/b', f'**/g{k}', f'z{k}?', f'[qw]{k}.zz',
+                       f'!nokeep{k}.zz', f'!nodir{k}/', f'fa{k}/*.q', f'\\#h{k}'])
+
+
+def gen_large(rng, size, chk=None, where=None):
+    """A LARGE rule set (about `size` patterns accumulated over the ignore files of data/, optionally the root and data/sub/):
+    filler lines of every class + overlapping ignore/whitelist groups (`*.ext` + several `!keep-N.ext`, negations before and
+    after the ignore line they counter, `odir/` + `!odir/keep`, the same again in the child directory).
+    Returns (files {dir: [lines]}, entries, paths {path: 'both'|'ignore'|'white'|'none'})."""
+    ext = rng.choice(['dat', 'bin', 'csv'])
+    k = rng.choice([1, 2, 3, 5, 8, 12, 16])
+    where = where or rng.choice(['one-file', 'one-file', 'root+data', 'data+child', 'root+data+child'])
+    placement = rng.choice(['ignore-first', 'ignore-first', 'ignore-last', 'ignore-middle'])
+    whites = [f'!keep-{i}.{ext}' for i in range(1, k + 1)]
+    grp = {'ignore-first': [f'*.{ext}'] + whites, 'ignore-last': whites + [f'*.{ext}'],
+           'ignore-middle': whites[:k // 2] + [f'*.{ext}'] + whites[k // 2:]}[placement]
+    core = list(grp) + ['odir/', '!odir/keep', '!solo.txt']
+    files = {'data': []}
+    ents = [('D', 'data'), ('D', 'data/odir'), ('F', 'data/odir/keep'), ('F', 'data/odir/o'), ('F', 'data/solo.txt'), ('F', 'data/plain.md')]
+    paths = {'/data/odir/keep': 'both', '/data/odir/o': 'ignore', '/data/solo.txt': 'white', '/data/plain.md': 'none', '/data/odir': 'none'}
+    for i in range(1, k + 1):
+        ents.append(('F', f'data/keep-{i}.{ext}')); paths[f'/data/keep-{i}.{ext}'] = 'both'
+    for i in range(1, rng.choice([2, 4, 16]) + 1):
+        ents.append(('F', f'data/drop-{i}.{ext}')); paths[f'/data/drop-{i}.{ext}'] = 'ignore'
+    child = []
+    if 'child' in where:
+        files['data/sub'] = child
+        ents += [('D', 'data/sub'), ('F', f'data/sub/keep-1.{ext}'), ('F', f'data/sub/drop-1.{ext}'), ('F', f'data/sub/keep-{k + 1}.{ext}'), ('F', 'data/sub/plain.md')]
+        paths.update({f'/data/sub/keep-1.{ext}': 'both', f'/data/sub/drop-1.{ext}': 'ignore', f'/data/sub/keep-{k + 1}.{ext}': 'both', '/data/sub/plain.md': 'none'})
+        child += [f'!keep-{k + 1}.{ext}', f'*.{ext}'] if rng.random() < 0.5 else [f'!keep-{k + 1}.{ext}']
+    if 'root' in where:
+        files[''] = []
+    npat = len(core) + len(child) + (2 if where != 'rules-only' else 0)       # + the two built-in patterns
+    fill = [filler_line(rng, j) for j in range(max(0, size - npat))]
+    # distribute the filler: before / between / after the core lines of data/, the rest to the other files
+    targets = list(files)
+    parts = {d: [] for d in targets}
+    for f in fill:
+        parts[rng.choice(targets) if rng.random() < 0.5 else 'data'].append(f)
+    body = list(core)
+    for f in parts['data']:
+        pos = rng.choice([0, 0, len(body), len(body), rng.randrange(len(body) + 1)])
+        if placement == 'ignore-first' and rng.random() < 0.7: pos = max(pos, 1)     # keep `*.ext` in front most of the time (widest window)
+        body.insert(pos, f)
+    files['data'] = body
+    if 'data/sub' in files: files['data/sub'] = parts['data/sub'] + child
+    if '' in files: files[''] = parts['']
+    if rng.random() < 0.3: files['data'].insert(rng.randrange(len(files['data'])), '# a comment')
+    total = sum(1 for ls in files.values() for l in ls if l.strip() and not l.startswith('#')) + 2
+    for d2, ls in files.items():
+        ents += [('F', (d2 + '/' if d2 else '') + IGN), ('I', d2, '\n'.join(ls) + '\n')]
+    if chk:
+        chk.count('large:rule-set-size:' + size_bucket(total)); chk.count('large:where:' + where); chk.count('large:placement:' + placement)
+        chk.count('large:paths-matched-by-both', sum(1 for v in paths.values() if v == 'both'))
+        chk.count('large:paths-matched-by-ignore-only', sum(1 for v in paths.values() if v == 'ignore'))
+    return files, ents, paths, total
+
+
+def draw_size(rng, i=None):
+    b = SIZE_POINTS[i % len(SIZE_POINTS)] if i is not None else rng.choice(SIZE_POINTS)
+    return max(6, min(130, b + rng.choice([-2, -1, 0, 0, 0, 1, 2, rng.randint(-5, 5)])))
+
+
+def seed2_scenario(filler=40, keep=16):
+    """the minimised seeded scenario C09-2: data/.xvcignore = `*.dat`, 40 unrelated lines, `!keep-1.dat`..`!keep-16.dat`"""
+    lines = ['*.dat'] + [f'*.scratch{i}' for i in range(1, filler + 1)] + [f'!keep-{i}.dat' for i in range(1, keep + 1)]
+    ents = [('D', 'data')] + [('F', f'data/keep-{i}.dat') for i in range(1, keep + 1)] + [('F', f'data/drop-{i}.dat') for i in range(1, keep + 1)]
+    ents += [('F', 'data/' + IGN), ('I', 'data', '\n'.join(lines) + '\n')]
+    return ents
+
+
+def large_rule_checks(chk, pr, n, reps):
+    """rule-set level: `check` (one IgnoreRules::from_patterns) and `checkm` (merged file by file) on large rule sets, every
+    question asked `reps` times; oracle: all answers to one question are equal; tie: equal to the model's answer"""
+    rng = chk.rng
+    st = chk.tie['streams'].setdefault('check-large', {'cases': 0, 'questions': 0, 'disagreements': 0, 'oracle_failures': 0})
+    qs = []
+    for i in range(n):
+        files, _, paths, total = gen_large(rng, draw_size(rng, i), chk)
+        order = sorted(files, key=lambda d2: (d2.count('/') if d2 else -1))
+        rules = [('F' + hx(d2), l) for d2 in order for l in files[d2] if l.strip() and not l.startswith('#')]
+        op = 'checkm' if i % 2 else 'check'
+        ps = sorted(paths)
+        rng.shuffle(ps)
+        for pth in ps[:10]:
+            qs.append((op, pth, rules, paths[pth], total))
+    lines = []
+    for op, pth, rules, _, _ in qs:
+        l = op + '\t' + hx(pth) + ''.join(f'\t{s2}\t{hx(x)}' for s2, x in rules)
+        lines += [l] * reps
+    ai, _ = pr.impl_only(lines)
+    _, am, _ = pr.both([lines[j * reps] for j in range(len(qs))]) if pr.model else (None, [None] * len(qs), None)
+    first_o = first_t = None
+    for j, (op, pth, rules, kind, total) in enumerate(qs):
+        got = ai[j * reps:(j + 1) * reps]
+        st['questions'] += 1; chk.evaluations += 1
+        chk.count(f'large:check:{kind}:{got[0]}')
+        if kind == 'both': chk.nontrivial.add(hashlib.sha1(('L' + op + pth + repr(rules)).encode()).hexdigest())
+        if len(set(got)) > 1:
+            st['oracle_failures'] += 1
+            if first_o is None: first_o = (op, pth, rules, got, total)
+        if am[j] is not None and got[0] != am[j]:
+            st['disagreements'] += 1
+            if first_t is None: first_t = (op, pth, rules, got[0], am[j])
+    st['cases'] = n
+    if first_o:
+        op, pth, rules, got, total = first_o
+        chk.oracle_failure(f'IgnoreRules::check gave {sorted(set(got))} for the same path {pth} and the same {total - 2} rules in {reps} repetitions',
+                           {'level': 'check-large', 'op': op, 'path': pth, 'rules': [(unhx(s2[1:]), x) for s2, x in rules], 'repetitions': reps},
+                           {'answers': got}, signature={'stream': 'check-large'})
+    if first_t:
+        op, pth, rules, x, y = first_t
+        chk.disagreement('check-large', {'op': op, 'path': pth, 'rules': [(unhx(s2[1:]), l) for s2, l in rules]}, x, y, 'large rule set')
+
+
 def enc_tree(ents):
     out = []
     for e in ents:
@@ -454,6 +579,7 @@ def shrink_tree(ents, fails, max_steps=150):
 
 
 CORPUS = [
+    seed2_scenario(),      # C09-2: 59 patterns, paths matched by `*.dat` and by a `!keep-N.dat`; runs first, 25+ parallel walks / 24 listings
     # F8: a name-only line in a nested ignore file must not act outside its directory (symmetric: whichever of a/ b/ is visited first)
     [('D', 'a'), ('D', 'b'), ('F', 'a/' + IGN), ('I', 'a', 'g\n'), ('F', 'a/f'), ('F', 'a/g'),
      ('F', 'b/' + IGN), ('I', 'b', 'f\n'), ('F', 'b/f'), ('F', 'b/g')],
@@ -645,8 +771,8 @@ def run(chk: Check):
     stream_simple(chk, pr, 'const', consts, lambda c: 'const\t' + c, lambda c, x: True)
 
     # ---- S3b glob / pattern / content / check streams
-    n_glob = 4000 if quick else 60000
-    n_pat = 2500 if quick else 40000
+    n_glob = 3000 if quick else 60000
+    n_pat = 2000 if quick else 40000
     n_content = 400 if quick else 6000
     n_check = 1500 if quick else 30000
     rng = chk.rng
@@ -691,13 +817,16 @@ def run(chk: Check):
                                {'forward': x, 'reverse': y}, signature={'stream': 'check-merged'})
             break
 
+    large_rule_checks(chk, pr, 21 if quick else 280, 8 if quick else 12)
+
     # ---- S3c/S4 trees: walkers vs model, oracle
-    n_trees = 48 if quick else 480
+    n_trees = 30 if quick else 420
     reps = 25 if quick else 100
     max_us = (300 if quick else 120) if hooked else 0
     st = chk.tie['streams'].setdefault('tree', {'cases': 0, 'disagreements': 0, 'oracle_failures': 0, 'parallel_repetitions': 0})
     twins = [gen_twin_tree(rng, rel, cls, chk) for _ in range(1 if quick else 4) for rel in TWIN_RELATIONS for cls in TWIN_CLASSES]
-    trees = [list(t) for t in CORPUS] + twins + [gen_tree(rng, chk) for _ in range(n_trees)]
+    larges = [gen_large(rng, draw_size(rng, k), chk)[1] for k in range(7 if quick else 70)]
+    trees = [list(t) for t in CORPUS] + larges + twins + [gen_tree(rng, chk) for _ in range(n_trees)]
     # known-finding region K11 is kept out of the generated stream: a whitelist line that matches a .xvc/.git directory
     for i, hit in enumerate(special_hits(pr, trees)):
         if hit:
@@ -740,15 +869,16 @@ def run(chk: Check):
             chk.oracle_failure(msgs[0], {'tree': ents, 'show': show_tree(ents)}, {'all': msgs, 'emitted': obs.get('serial')}, signature=signature(pr, ents, msgs))
 
     # ---- binary level
-    n_bin = 6 if quick else 50
+    n_bin = 3 if quick else 44
     breps = 6 if quick else 20
     bst = chk.tie['streams'].setdefault('binary', {'cases': 0, 'disagreements': 0, 'oracle_failures': 0})
-    pick = [(TWIN_RELATIONS[(chk.seed + k) % 3], TWIN_CLASSES[(chk.seed + k) % len(TWIN_CLASSES)]) for k in range(6)] if quick else \
+    pick = [(TWIN_RELATIONS[(chk.seed + k) % 3], TWIN_CLASSES[(chk.seed + k) % len(TWIN_CLASSES)]) for k in range(4)] if quick else \
            [(r, c) for r in TWIN_RELATIONS for c in TWIN_CLASSES]
-    btrees = [list(CORPUS[0]), list(CORPUS[1])] + [gen_twin_tree(rng, r, c, chk) for r, c in pick] + \
+    blarge = [gen_large(rng, draw_size(rng, chk.seed + 4 + k), chk)[1] for k in range(2 if quick else 14)]
+    btrees = [list(CORPUS[0]), list(CORPUS[1]), list(CORPUS[2])] + blarge + [gen_twin_tree(rng, r, c, chk) for r, c in pick] + \
              [gen_tree(rng, chk, special=False) for _ in range(n_bin)]
     for i, ents in enumerate(btrees):
-        msgs, tie = binary_case(chk, pr, xvc, ents, i, breps, hooked)
+        msgs, tie = binary_case(chk, pr, xvc, ents, i, 24 if i == 0 else (10 if i in (3, 4) else breps), hooked)
         bst['cases'] += 1; chk.evaluations += 1
         if msgs:
             bst['oracle_failures'] += 1
@@ -763,7 +893,7 @@ def run(chk: Check):
         f'constants (3); {len(globs)} (glob, path) pairs with globs of the four shapes of transform_pattern_for_glob x bodies from the gitignore grammar '
         f'(names, *.ext, dir/, /anchored, a/b, **/x, ?, [..], escapes; shape/body classes counted in generator_distribution) and paths instantiated from the glob then perturbed; '
         f'{len(pats)} Pattern::new (source dir, line) pairs, all fields; {len(contents)} ignore-file contents through content_to_patterns; '
-        f'{len(checks)} IgnoreRules::check calls on rule sets of 1-6 lines; {len(merged)} checks on rule sets merged file by file (add_patterns) with the same line in the ignore files of two directories, forwards and in reverse load order; {len(twins)} twin trees (the identical line — name, *.ext, dir/, !negation, a/b, /anchored — in the ignore files of sibling, cousin and parent+child directories) + {len(trees) - len(twins)} real trees (<= 4 levels, <= 20 entries, ignore files at random directories, '
+        f'{len(checks)} IgnoreRules::check calls on rule sets of 1-6 lines; {len(merged)} checks on rule sets merged file by file (add_patterns) with the same line in the ignore files of two directories, forwards and in reverse load order; {len(twins)} twin trees (LARGE rule sets first: the seeded scenario C09-2 and {len(larges)} generated trees whose accumulated rule set has a size drawn around 8/16/31/32/33/64/128 with paths matched by ignore and whitelist lines at once; then the identical line — name, *.ext, dir/, !negation, a/b, /anchored — in the ignore files of sibling, cousin and parent+child directories) + {len(trees) - len(twins)} real trees (<= 4 levels, <= 20 entries, ignore files at random directories, '
         f'.xvc/.git directories, symlinks) each walked by walk_serial, by walk_parallel {reps}x' + (' with seeded hook delays' if hooked else '') +
         ', again after re-creating the entries in a shuffled order, again without the ignore file of up to 3 directories (scoping), '
         f'plus build_ignore_patterns+check on up to 12 paths; {len(btrees)} scratch repositories driven by the rebuilt xvc binary (file list x{breps}, glob targets, check-ignore, file track dir/; the first ones are twin trees). '
@@ -777,6 +907,16 @@ def replay(chk: Check, data):
     pr = Procs(chk, impl, None)
     for f in data.get('failures', []):
         case = f['case']
+        if case.get('level') == 'check-large':
+            l = case['op'] + '\t' + hx(case['path']) + ''.join(f'\tF{hx(d2)}\t{hx(x)}' for d2, x in case['rules'])
+            ans, _ = pr.impl_only([l] * 200)
+            chk.evaluations += 1
+            print(case['op'], case['path'], 'with', len(case['rules']), 'rules, 200 repetitions ->', {a: ans.count(a) for a in set(ans)})
+            if len(set(ans)) > 1:
+                chk.oracle_failure(f'IgnoreRules::check gave {sorted(set(ans))} for one path and one rule set in 200 repetitions', case, None, signature={'stream': 'check-large'})
+            else:
+                print('oracle: property holds on this input')
+            continue
         if case.get('level') == 'check':
             rules = [('G' if s2 == 'G' else 'F' + hx(s2), l) for s2, l in case['rules']]
             mk = lambda rs: 'checkm\t' + hx(case['path']) + ''.join(f'\t{s2}\t{hx(l)}' for s2, l in rs)
